@@ -788,7 +788,7 @@ func Main(c *run.Ctx) {
 				if r.o.restart == 0 {
 					continue
 				}
-				p := h.extend(r.p, cat.Fault{Index: rng.Intn(r.o.restart), Kind: cat.Kinds[rng.Intn(3)]})
+				p := h.extend(r.p, cat.Fault{Index: rng.Intn(r.o.restart), Kind: cat.Kinds[rng.Intn(len(cat.Kinds))]})
 				report(c, h.evaluate(p), &tot)
 				tripleN++
 			}
